@@ -1431,6 +1431,16 @@ def m_path_ends_with(ex, m, argv, guard, st, callee):
     return guard, zite(b.f['abs'], path_eq(a, b), zand(*suffix))
 
 
+def m_path_starts_with(ex, m, argv, guard, st, callee):
+    """Path::starts_with: whole components; the empty relative path is a prefix of every path, otherwise the root flag must
+    agree (std compares RootDir as a component)."""
+    a, b = _path_of(ex, st, argv[0]), _path_of(ex, st, argv[1])
+    pre = [a.f['abs'] == b.f['abs'], z3.ULE(b.f['len'], a.f['len'])]
+    for j, (x, y) in enumerate(zip(a.f['c'].fields, b.f['c'].fields)):
+        pre.append(z3.Implies(z3.ULT(bv(j, 64), b.f['len']), x == y))
+    return guard, zor(zand(b.f['len'] == bv(0, 64), znot(b.f['abs'])), zand(*pre))
+
+
 def m_iter_position(ex, m, argv, guard, st, callee):
     """slice::Iter::position(pure predicate): index of the first element in range that satisfies it."""
     it = _iter_get(ex, st, argv[0])
@@ -1979,6 +1989,7 @@ def register(ex):
     A(r'^(?:std::path::)?Path::parent$', m_path_parent, 'Path::parent (path model)')
     A(r'^(?:std::path::)?Path::join::<&(?:std::path::)?Path>$', m_path_join, 'Path::join (path model)')
     A(r'^(?:std::path::)?Path::ends_with::<.*>$', m_path_ends_with, 'Path::ends_with (path model: component suffix)')
+    A(r'^(?:std::path::)?Path::starts_with::<.*>$', m_path_starts_with, 'Path::starts_with (path model: component prefix)')
     A(r'^<(?:std::path::)?PathBuf as (?:std::ops::)?Deref>::deref$', m_path_identity, 'PathBuf::deref (path model)')
     A(r'^<(?:std::slice::)?Iter<.*> as (?:std::iter::)?Iterator>::position::<\{closure@.*$', m_iter_position, 'slice::Iter::position with a pure predicate')
     A(r'^(?:std::option::)?Option::<.*>::or_else::<.*$', m_option_or_else, 'Option::or_else')
